@@ -70,6 +70,7 @@ FAMILIES = [
     # ---- C13
     (r"c13_l1_", "L1", "one real lexing step from an arbitrary state: structural contract K-LEX + boundary/kind == independent reference scanner", [LEXER + ": whitespace_and_token, lex_token_with_map and the sub-lexer of the class"]),
     (r"c13_k2_", "K2", "hashed keyword lookup == linear scan of the KEYWORDS table for every word of n letters (hits and misses)", [LEXER + ": get_word_token_type, hash_keyword, KEYWORD_LOOKUP_TABLE"]),
+    (r"c13_z2_", "Z2", "consume_to_eof: an unterminated comment/directive ends where the trailing blanks (<= U+0020, U+3000) begin, on a character boundary", [LEXER + ": consume_to_eof, count_unicode_whitespace"]),
     (r"c13_d1_", "D1", "the 256-entry dispatch tables (normal and asm) select the prescribed sub-lexer for every first byte", [LEXER + ": LEXER_MAP, ASM_LEXER_MAP"]),
     (r"c13_w1_", "W1", "count_leading_whitespace == blank count (<= U+0020 and U+3000); eof consumes exactly the trailing blanks", [LEXER + ": count_leading_whitespace, count_unicode_whitespace, eof"]),
     (r"c13_v2_", "V2", "scalar identifier scan == reference", [LEXER + ": find_identifier_end_generic"]),
@@ -100,7 +101,7 @@ c07_i1_toggle_brace_b1_w3 c07_i1_toggle_slashes_b0_w2 c07_i2_region_marking_3tok
 c08_s1_spacing_zero_or_one_3kinds c08_s2_olf_zeroes_spaces_at_line_start c08_s3_apply_solution_counters c08_s4_eof_newline c08_r1_render_soft_w2_w4
 c09_q1_lf_vs_crlf_soft_w2_w4 c09_q3_counters_crlf_eq_lf_nnb
 c10_a1_settings_to_strings c10_a2_new_soft_w0_w3 c10_a2_new_soft_w2_w4 c10_a2_new_hard_w1_w2 c10_a2_new_hard_w5_w0 c10_a3_linewhitespace_len_arith c10_a3_len_equals_emitted_soft_w2_w4 c10_a3_len_equals_emitted_hard_w1_w3 c10_a4_tabs_vs_spaces_tw2_ci2
-c13_d1_dispatch_table_all_bytes c13_w1_blanks_sIs c13_w1_blanks_ssss c13_w1_blanks_sNs c13_v2_scalar_ident_sIs c13_l1_colon_n2 c13_l1_slash_n3 c13_l1_digit_n3 c13_l1_dot_n2 c13_l1_langle_n2 c13_l1_simple_ops_n1 c13_l1_unknown_n1 c13_v1_avx2_eq_ref_len33_off1 c13_k2_keyword_lookup_eq_scan_len3 c13_l1_word_a_n3
+c13_d1_dispatch_table_all_bytes c13_w1_blanks_sIs c13_w1_blanks_ssss c13_w1_blanks_sNs c13_v2_scalar_ident_sIs c13_l1_colon_n2 c13_l1_slash_n3 c13_l1_digit_n3 c13_l1_dot_n2 c13_l1_langle_n2 c13_l1_simple_ops_n1 c13_l1_unknown_n1 c13_v1_avx2_eq_ref_len33_off1 c13_k2_keyword_lookup_eq_scan_len3 c13_l1_word_a_n3 c13_z2_consume_to_eof_sIs
 c12_m1c_lf_basic c12_m1c_cr_only c12_m1c_short_nonblank_line c12_m1c_ignored_untouched
 c15_a_attach_list1_c3 c15_a_attach_list3_c8 c15_a_attach_list4_c9 c15_a_attach_list2_c4 c15_b_relocate_list1_c1 c15_b_relocate_list1_c3 c15_b_relocate_list1_c5 c15_b_relocate_list2_c4 c15_b_relocate_list3_c8 c15_b_relocate_list4_c9 c15_b_relocate_list1_ignored_c3 c15_b_relocate_list1_cmax c15_b_relocate_rewritten_literal_c4 c15_b_relocate_rewritten_literal_c9 c15_a_attach_list8crlf_c2 c15_b_relocate_list8crlf_c2
 c04_cursor_nocontract_list1_c3 c04_cursor_nocontract_list5_c3 c04_cursor_nocontract_list4_c8 c04_cursor_nocontract_list6_c4 c04_cursor_nocontract_list1_cmax
@@ -113,6 +114,10 @@ c17_u0_bom_sniffing c17_u1_utf16le_1scalar c17_u1_utf16be_1scalar c17_u3_write_u
 EXCLUDED = [
     (r"c12_m1_", "format_multiline_strings on symbolic literal bytes: std's char/str iterators over symbolic bytes run out of memory even at 10 bytes; replaced by M1c (concrete literals, symbolic layout)"),
     (r"c12_m1a_", "lines_custom on 5 symbolic bytes: 411 s of symbolic execution, then out of memory at 10 GB"),
+    (r"c13_l1_quote_n[3-9]", "text literal with 3+ symbolic bytes: 330 s of symbolic execution then out of memory at 10 GB (`bytes().skip(symbolic).take_while(..)` inside the escape/quote loop); n = 1, 2 are registered (n = 2: 640 s)"),
+    (r"c13_l1_hash_n", "`#` escapes with 2+ symbolic bytes: out of memory at 10 GB after 15 min"),
+    (r"c13_l1_lbrace_(n[3-9]|directive)", "`{` with 3+ symbolic bytes: directive-expression recursion x loop unwinding: out of memory"),
+    (r"c13_l1_lparen_n[3-9]", "`(*` with 3+ symbolic bytes: same recursion as `{`: out of memory"),
     (r"c14_g4_", "one pass of the recursive-descent parser on 1-2 symbolic-kind tokens: > 15 min / 9 GB without a verdict"),
     (r"c14_g1_", "DirectiveTree passes on 2-3 symbolic kinds: recursion x loop unwinding and symbolic-size Vec growth: out of memory at 10 GB"),
 ]
@@ -123,7 +128,7 @@ SHARED = [
     ("C02", r"c03_f3_"),          # H4: lower-cased keywords keep their kind
     ("C03", r"c12_m1c_lf_basic$"), ("C03", r"c12_m5_"),
     ("C02", r"c12_m1c_"),         # multi-line literals re-scan to the same literal modulo indentation/terminators
-    ("C07", r"c08_s1_"), ("C07", r"c08_s2_"),   # K-IGN: spacing and the wrapper's tail hand the ignored flag back unchanged
+    ("C07", r"c08_s1_"), ("C07", r"c08_s2_"), ("C06", r"c08_s3_"),   # a solution is applied to all tokens of the line, ignored or not   # K-IGN: spacing and the wrapper's tail hand the ignored flag back unchanged
     ("C08", r"c03_f1a_"),         # line comments end up without trailing ASCII whitespace
     ("C08", r"c10_a1_"),          # a continuation is a whole number of indentation units
     ("C09", r"c12_m1c_"),         # Q2: interior terminators of re-indented literals = configured one
@@ -132,7 +137,7 @@ SHARED = [
     ("C13", r"c03_f3_"),          # K1: keyword recognition
     ("C13", r"c12_m3_"),          # T2: multi-line literal opener / terminator
     # C04: every harness checks panics / overflow / unwinding; these run on unrestricted inputs
-    ("C04", r"c13_l1_"), ("C04", r"c13_w1_"), ("C04", r"c14_g1_"), ("C04", r"c12_m1c_"), ("C04", r"c12_m3_"), ("C04", r"c15_b_relocate_rewritten"),
+    ("C04", r"c13_l1_"), ("C04", r"c13_w1_"), ("C04", r"c13_z2_"), ("C10", r"c12_m1c_lf_to_crlf_tabs"), ("C04", r"c14_g1_"), ("C04", r"c12_m1c_"), ("C04", r"c12_m3_"), ("C04", r"c15_b_relocate_rewritten"),
     ("C04", r"c01_p2_"), ("C04", r"c01_p3_"), ("C04", r"c07_i1_"), ("C04", r"c17_u1_"),
 ]
 
@@ -142,10 +147,11 @@ SMT = {"C13": [{"module": "smt.avx2_lane", "tier": "quick"}]}
 SHARED_QUICK = {
     ("C01", "c12_m1c_short_nonblank_line"), ("C02", "c03_f3_keywords_any_case_len4"), ("C03", "c12_m1c_lf_basic"),
     ("C08", "c03_f1a_line_comment_result_normal_len3"), ("C08", "c10_a1_settings_to_strings"), ("C09", "c12_m1c_cr_only"), ("C13", "c03_f3_keywords_any_case_len4"),
-    ("C07", "c08_s1_spacing_zero_or_one_3kinds"), ("C02", "c12_m1c_blank_line_longer_than_base"),
+    ("C07", "c08_s1_spacing_zero_or_one_3kinds"), ("C06", "c08_s3_apply_solution_counters"), ("C02", "c12_m1c_blank_line_longer_than_base"),
     ("C09", "c13_l1_slash_n3"), ("C01", "c13_w1_blanks_sNs"),
-    ("C04", "c13_l1_digit_n3"), ("C04", "c13_l1_slash_n3"), ("C04", "c01_p2_line_comment_len3"), ("C04", "c07_i1_toggle_brace_b1_w3"),
-    ("C04", "c15_b_relocate_rewritten_literal_c4"), ("C04", "c12_m1c_short_nonblank_line"),
+    ("C04", "c13_z2_consume_to_eof_ssI"), ("C10", "c12_m1c_lf_to_crlf_tabs"),
+    ("C04", "c13_l1_digit_n3"), ("C04", "c13_l1_slash_n3"), ("C04", "c01_p3_directive_brace_len4"),
+    ("C04", "c15_b_relocate_rewritten_literal_c4"),
 }
 
 PROPERTY_META = {
@@ -192,6 +198,8 @@ def build(hcrate=None):
                  mem_gb=MEM.get(name, 12), feature=mod)
         if name.startswith("c13_v1_"):
             o["flags"] = []  # memory-safety checks ON for the unsafe AVX2 routine
+        if name.startswith("c12_m1c_") or name.startswith("c12_m5_"):
+            o["playback"] = False  # trace generation does not fit; failures are witnessed by the native search
         props.setdefault(pid, []).append(o)
     # shared obligations
     all_obs = [o for obs in props.values() for o in obs]
